@@ -211,10 +211,20 @@ public:
     void split_to_fill(depth_t max_depth) {
         while( my_size < MaxCapacity && is_divisible(max_depth) ) {
             depth_t prev = my_head;
-            my_head = (my_head + 1) % MaxCapacity;
-            new(my_pool.begin()+my_head) T(my_pool.begin()[prev]); // copy TODO: std::move?
+            depth_t next = (my_head + 1) % MaxCapacity;
+            // If the copy throws, nothing has changed yet
+            new(my_pool.begin()+next) T(my_pool.begin()[prev]); // copy TODO: std::move?
             my_pool.begin()[prev].~T(); // instead of assignment
-            new(my_pool.begin()+prev) T(my_pool.begin()[my_head], detail::split()); // do 'inverse' split
+            try_call([&] {
+                new(my_pool.begin()+prev) T(my_pool.begin()[next], detail::split()); // do 'inverse' split
+            }).on_exception([&] {
+                // The slot 'prev' is empty now: drop it together with the copy, so that the destructor
+                // sees only constructed ranges (the algorithm is being cancelled by this exception anyway)
+                my_pool.begin()[next].~T();
+                my_head = (prev + MaxCapacity - 1) % MaxCapacity;
+                my_size--;
+            });
+            my_head = next;
             my_depth[my_head] = ++my_depth[prev];
             my_size++;
         }
